@@ -18,7 +18,7 @@ REL = {"C01": ["C01", "C11", "C16", "C03", "C13"], "C02": ["C02", "C12", "C13"],
 args = [a for a in sys.argv[1:] if not a.startswith("--")]
 recheck = "--recheck" in sys.argv
 done = set()
-for d in sorted(glob.glob("/tmp/wt/*-out/*")) + sorted(glob.glob("/tmp/wt/*-out2/*")) + sorted(glob.glob("/tmp/wt/*-out3/*")) + sorted(glob.glob("/tmp/wt/*-out4/*")) + sorted(glob.glob("/tmp/wt/*-out5/*")) + sorted(glob.glob("/tmp/wt/*-out6/*")) + sorted(glob.glob(os.path.join(VERIF, "seeded", "*"))):
+for d in sorted(glob.glob("/tmp/wt/*-out/*")) + sorted(glob.glob("/tmp/wt/*-out2/*")) + sorted(glob.glob("/tmp/wt/*-out3/*")) + sorted(glob.glob("/tmp/wt/*-out4/*")) + sorted(glob.glob("/tmp/wt/*-out5/*")) + sorted(glob.glob("/tmp/wt/*-out6/*")) + sorted(glob.glob("/tmp/wt/*-out7/*")) + sorted(glob.glob(os.path.join(VERIF, "seeded", "*"))):
     if not os.path.isfile(os.path.join(d, "patch.diff")):
         continue
     if d.startswith("/tmp/wt/"):
